@@ -72,9 +72,29 @@ def r2_directions(ctx):
             continue
         its = _loop_iter_types(f)
         hooks = [s for s in f.calls() if s.callee == 'des::net::processing::ProcessingElement::' + hook]
+        want_rev = 'Rev' in want
+        cls = [c for c in counting_loops(f) if any(h.b in c['body'] for h in hooks)] if not its else []
+        if cls and hooks:
+            # manual counting loop instead of an iterator: decide direction and coverage from the induction variable
+            c = cls[0]
+            is_len = lambda t: peel(t)[0] == 'call' and peel(t)[1].endswith('Vec::len') and any(x[0] == 'field' and x[2] == 'items' for x in walk(t))
+            for h in hooks:
+                recv = peel(f.expr_operand(h.args[0], h.b, 'T'))
+                idx = [x for x in walk(recv) if x[0] == 'call' and x[1].endswith(('IndexMut>::index_mut', 'Index>::index')) and any(y[0] == 'field' and y[2] == 'items' for y in walk(x[2][0]))]
+                it = peel(idx[0][2][1]) if idx else None
+                if it is not None and it[0] == 'field' and it[1][0] == 'bin':
+                    it = it[1]
+                is_var = lambda t: t is not None and ((peel(t)[0] == 'phi' and peel(t)[2] == c['name']) or peel(t) == ('local', c['var']))
+                if want_rev:
+                    ok = c['step'] == -1 and is_len(c['init']) and c['stay'] == ('gt', ('int', 0)) and it is not None and it[0] == 'bin' and it[1].startswith('Sub') and is_var(it[2]) and it[3] == ('int', 1)
+                else:
+                    ok = c['step'] == 1 and peel(c['init']) == ('int', 0) and c['stay'][0] == 'lt' and any(x[0] == 'call' and x[1].endswith('Vec::len') for x in walk(c['stay'][1])) and is_var(it)
+                ctx.check(ok and c['exits_only_at_guard'], 'direction:%s' % k.split('::')[-1],
+                          '%s visits the whole element stack %s' % (short(k), 'in reverse stack order' if want_rev else 'in stack order'), h.where(),
+                          {'form': 'counting loop', 'init': show(c['init'])[:80], 'step': c['step'], 'stay': c['stay'][0], 'index': show(it)[:80] if it else None})
+            continue
         if not (ctx.floor('element loop in %s' % short(k), len(its), 1) and ctx.floor('%s call' % hook, len(hooks), 1)):
             continue
-        want_rev = 'Rev' in want
         for (s, ty) in its:
             it = peel(f.expr_operand(s.args[0], s.b, 'T'))
             rng = [x for x in walk(it) if x[0] == 'agg' and 'ops::Range' in x[1]]
@@ -136,6 +156,9 @@ def r3_per_element(ctx):
             outs = []
             for s in loops_on_path:
                 outs += [r for _, r in call_outcomes(g, path, decs, s.name)][-1:]
+            if not _loop_iter_types(g):
+                cl = [c for c in counting_loops(g) if c['exits_only_at_guard'] and c['guard_block'] in path]
+                outs = ['None'] * len(cl)   # a counting loop without break is left only when its guard fails
             ctx.check(bool(outs) and all(o == 'None' for o in outs), 'down-no-early-exit', 'incoming_downstream calls event_end for every element', g.where_path(path), outs)
 
 
